@@ -28,6 +28,11 @@ func donors(prop string, lists ...[]*explore.Scenario) []*explore.Scenario {
 			c := *sc
 			c.Prop = prop
 			c.Name = prop + ":" + sc.Name
+			if prop == "C06" && c.Deepen == 0 {
+				// C06 rides on ~800 donor scenarios: it covers every one of them at the donor's own
+				// bound; deepening beyond it is left to the donor's own check
+				c.Deepen = c.Bound
+			}
 			out = append(out, &c)
 		}
 	}
